@@ -81,7 +81,15 @@ type yamlLog struct {
 	Feeder    string `yaml:"Feeder"`
 }
 
-func identKey(i int) *vlib.Key { return vlib.NewKey(fmt.Sprintf("idkey%d", i), fmt.Sprintf("ident%d", i)) }
+// identKey: keys 0-2 have names of their own; keys from 3 on carry the NAME of key 0 with key
+// material of their own (a key name is chosen by the log operator and nothing makes it
+// unique: what identifies a key is name + key hash).
+func identKey(i int) *vlib.Key {
+	if i >= 3 {
+		return vlib.NewKey("idkey0", fmt.Sprintf("ident%d", i))
+	}
+	return vlib.NewKey(fmt.Sprintf("idkey%d", i), fmt.Sprintf("ident%d", i))
+}
 
 func identYAML(c *IdentCase) []byte {
 	var doc struct {
@@ -133,6 +141,13 @@ func identStatic(c *IdentCase) error {
 		}
 		if lc.ID != logfmt.ID(l.Origin) {
 			return fmt.Errorf("origin %q: config ID %s differs from the ID derived from a checkpoint's first line %s", l.Origin, lc.ID, logfmt.ID(l.Origin))
+		}
+		// the verifier filed under that ID is the one of the key configured for this entry
+		// (not that of another entry that happens to share the key's name)
+		k := identKey(c.KeyIdx[i])
+		text := vlib.CheckpointText(l.Origin, 1, make([]byte, 32), nil)
+		if _, err := note.Open(vlib.Note(text, k.SigLine(text)), note.VerifierList(wi.SigV)); err != nil {
+			return fmt.Errorf("origin %q (ID %s): the verifier in the witness map (%s+%08x) does not accept a signature by the key configured for this log (%s): %v", l.Origin, lc.ID, wi.SigV.Name(), wi.SigV.KeyHash(), l.PublicKey, err)
 		}
 	}
 	return nil
@@ -383,7 +398,7 @@ func genIdent(rt *rapid.T, viaMain bool) *IdentCase {
 		}
 		seen[full(o)] = true
 		c.Origins = append(c.Origins, o)
-		c.KeyIdx = append(c.KeyIdx, rapid.IntRange(0, 2).Draw(rt, "key"))
+		c.KeyIdx = append(c.KeyIdx, rapid.IntRange(0, 4).Draw(rt, "key"))
 	}
 	if vlib.Pct(rt, 30, "dup") {
 		c.Dup = rapid.IntRange(0, n-1).Draw(rt, "dupidx")
@@ -396,7 +411,7 @@ func identHash(c *IdentCase) string {
 	return fmt.Sprintf("%x", vlib.LeafHash(b))[:16]
 }
 
-const ruleC12id = "generated configurations of 1-5 logs (origins assembled from parts with spaces, slashes, non-ASCII, URL metacharacters, shared prefixes, 6% several KiB long; shared keys; 30% with a duplicated origin) pushed through the real YAML schema, AsLogMap and config.NewLog (static part) and through the assembled service started by Main with a stub bastion (TLS/h2 reverse connection), a stub distributor and the HTTP API (via-main part): the ID accepted/used on every interface must be one string per origin and duplicates must be refused at start-up; non-trivial = any; distinct by case hash"
+const ruleC12id = "generated configurations of 1-5 logs (origins assembled from parts with spaces, slashes, non-ASCII, URL metacharacters, shared prefixes, 6% several KiB long; shared keys, and distinct keys that share a key NAME; 30% with a duplicated origin) pushed through the real YAML schema, AsLogMap and config.NewLog (static part) and through the assembled service started by Main with a stub bastion (TLS/h2 reverse connection), a stub distributor and the HTTP API (via-main part): the ID accepted/used on every interface must be one string per origin and duplicates must be refused at start-up; non-trivial = any; distinct by case hash"
 
 func TestC12Static(t *testing.T) {
 	st := vlib.StatsFor("C12", "id-static", ruleC12id)
